@@ -8,7 +8,7 @@ use crate::engine::{fail, Budget, Property, Report, Tier, Verdict};
 use crate::ensure;
 use crate::neutral::{neutral, NType, NValue};
 use crate::props::c04::check_roundtrip;
-use crate::scenario::{build, describe, gen_scenario, value_for, Scenario};
+use crate::scenario::{build, describe, gen_scenario, value_for_cfg, Scenario};
 use crate::src::Src;
 
 pub struct C14;
@@ -49,7 +49,7 @@ fn check(s: &Scenario, order: &[usize]) -> Result<BTreeMap<String, NType>, Verdi
             let mut labels: Vec<(String, String)> = c.vars.iter().cloned().zip(t.iter().cloned()).collect();
             labels.extend(c.consts.iter().map(|(k, v)| (k.clone(), v.clone())));
             labels.sort();
-            real.insert((c.name.clone(), labels), (c.kind.ntype(), value_for(c.kind, *seed)));
+            real.insert((c.name.clone(), labels), (c.kind.ntype(), value_for_cfg(c.kind, *seed, c.hist_cfg)));
         }
     }
     let reg = match build(s, order) {
